@@ -60,6 +60,18 @@ def _reduced_sum(*args: Array) -> Array:
     return sum(reduced)
 
 
+def _detach_model_seed_input(node: Node) -> None:
+    """
+    Removes the seed input ``_model_*_seed`` that a model attached to an unfrozen
+    node, so that the node can be added to a new model.
+    """
+    seed = node.kwinputs.get("seed")
+
+    if seed is not None and seed.name.startswith("_model_"):
+        kwinputs = {kw: inp for kw, inp in node.kwinputs.items() if kw != "seed"}
+        node.set_inputs(*node.inputs, **kwinputs)
+
+
 def _transform_back(var_transformed: Var) -> Calc:
     """
     Creates a :class:`.Calc` mapping a transformed parameter back to
@@ -1047,7 +1059,7 @@ class Model:
                 GraphBuilder(to_float32=to_float32).add(*nodes_and_vars).build_model()
             )
             nodes_and_vars = [*model.nodes.values(), *model.vars.values()]
-            model.pop_nodes_and_vars()
+            model._pop_nodes_and_vars(detach_seed_inputs=False)
 
         nodes = [nv for nv in nodes_and_vars if isinstance(nv, Node)]
         nodes = list(dict.fromkeys(nodes).keys())
@@ -1198,6 +1210,7 @@ class Model:
 
         for node in nodes.values():
             node._unset_model()
+            _detach_model_seed_input(node)
 
         nodes = {nm: nd for nm, nd in nodes.items() if not nm.startswith("_model")}
 
@@ -1249,11 +1262,19 @@ class Model:
         All nodes and variables are unfrozen and their reference to this model
         is removed. This model becomes invalid and cannot be used anymore.
         """
+        return self._pop_nodes_and_vars(detach_seed_inputs=True)
+
+    def _pop_nodes_and_vars(
+        self, detach_seed_inputs: bool
+    ) -> tuple[dict[str, Node], dict[str, Var]]:
         nodes = self._nodes.copy()
         _vars = self._vars.copy()
 
         for node in nodes.values():
             node._unset_model()
+
+            if detach_seed_inputs:
+                _detach_model_seed_input(node)
 
         nodes = {nm: nd for nm, nd in nodes.items() if not nm.startswith("_model")}
 
